@@ -10,6 +10,7 @@ import (
 	"github.com/git-lfs/git-lfs/v3/fs"
 	"github.com/git-lfs/git-lfs/v3/lfsapi"
 	"github.com/git-lfs/git-lfs/v3/tr"
+	"github.com/git-lfs/git-lfs/v3/verifhook"
 	"github.com/rubyist/tracerx"
 )
 
@@ -175,6 +176,8 @@ func (a *adapterBase) worker(workerNum int, ctx interface{}) {
 		}
 		a.Trace("xfer: adapter %q worker %d processing job for %q", a.Name(), workerNum, t.Oid)
 
+		verifhook.Yield("adapter.worker.beforeTransfer")
+		verifhook.Event("adapter.attempt.begin", t.Oid, int64(workerNum))
 		// Actual transfer happens here
 		var err error
 		if t.Size < 0 {
@@ -183,6 +186,12 @@ func (a *adapterBase) worker(workerNum int, ctx interface{}) {
 			err = a.transferImpl.DoTransfer(ctx, t, a.cb, authCallback)
 		}
 
+		if err != nil {
+			verifhook.Event("adapter.attempt.fail", t.Oid, int64(workerNum))
+		} else {
+			verifhook.Event("adapter.attempt.ok", t.Oid, int64(workerNum))
+		}
+		verifhook.Yield("adapter.worker.afterTransfer")
 		// Mark the job as completed, and alter all listeners
 		job.Done(err)
 
